@@ -136,20 +136,39 @@ theorem swLoop_good (adj : List Link) (t : List TEdge) (conns : Conns) :
       · subst e; exact i1 _ estab
       · exact i2 sw e
 
-/-- POST-CONDITION of `_update_tree()`, from ANY previous `_prev`. -/
-theorem updateTree_post (adj : List Link) (order : List Nat) (conns : Conns) (pv pv' : Prev) (mods : List PortMod)
-    (t : List TEdge) (ht : calcTreeL adj order = .ok t) (h : updateTree adj order conns pv = .ok (pv', mods)) :
-    ∀ sw ∈ treeKeys t, Good adj t conns pv' sw := by
+theorem Conns.mem_keys_of_get : ∀ (c : Conns) (k : Nat) (ps : List Nat), Conns.get c k = some ps → k ∈ c.map (·.1)
+  | [], _, _, h => by simp [Conns.get] at h
+  | (d, ps0) :: r, k, ps, h => by
+    unfold Conns.get at h
+    by_cases hd : d = k
+    · simp [hd]
+    · rw [if_neg hd] at h
+      simp only [List.map_cons, List.mem_cons]
+      exact .inr (Conns.mem_keys_of_get r k ps h)
+
+/-- POST-CONDITION of `_update_tree()`, from ANY previous `_prev`, for every switch it goes through. -/
+theorem updateTree_post (va : Bool) (adj : List Link) (order : List Nat) (conns : Conns) (pv pv' : Prev) (mods : List PortMod)
+    (t : List TEdge) (ht : calcTreeL adj order = .ok t) (h : updateTree va adj order conns pv = .ok (pv', mods)) :
+    ∀ sw ∈ visited va t conns, Good adj t conns pv' sw := by
   unfold updateTree at h
   rw [ht] at h
-  simp only [Except.ok.injEq, Prod.mk.injEq] at h
+  simp only [Except.ok.injEq] at h
   intro sw hsw
-  have := (swLoop_good adj t conns (treeKeys t) (pv, [])).2 sw hsw
+  have := (swLoop_good adj t conns (visited va t conns) (pv, [])).2 sw hsw
   rw [h] at this
   exact this
 
-theorem updateTree_ok (adj : List Link) (order : List Nat) (conns : Conns) (pv : Prev) (t : List TEdge)
-    (ht : calcTreeL adj order = .ok t) : ∃ pv' mods, updateTree adj order conns pv = .ok (pv', mods) := by
+/-- with the repair (every connected switch is visited) the post-condition holds for EVERY switch -/
+theorem updateTree_post_all (adj : List Link) (order : List Nat) (conns : Conns) (pv pv' : Prev) (mods : List PortMod)
+    (t : List TEdge) (ht : calcTreeL adj order = .ok t) (h : updateTree true adj order conns pv = .ok (pv', mods)) :
+    ∀ sw, Good adj t conns pv' sw := by
+  intro sw ports hp
+  have hm : sw ∈ visited true t conns := by
+    unfold visited; simp only [if_true]; exact Conns.mem_keys_of_get conns sw ports hp
+  exact updateTree_post true adj order conns pv pv' mods t ht h sw hm ports hp
+
+theorem updateTree_ok (va : Bool) (adj : List Link) (order : List Nat) (conns : Conns) (pv : Prev) (t : List TEdge)
+    (ht : calcTreeL adj order = .ok t) : ∃ pv' mods, updateTree va adj order conns pv = .ok (pv', mods) := by
   unfold updateTree; rw [ht]; exact ⟨_, _, rfl⟩
 
 end Pox.STree
